@@ -30,6 +30,14 @@ Theorem C12_running_le_njob_of_sound_tests :
     length (running l) <= n /\ command_tasks l <= n /\ njob l = n /\ overrun l = false.
 Proof. exact running_le_njob_of_sound. Qed.
 
+(* For the bound on step COMMANDS the test in front of pop_next_job / start_task alone matters: with
+   any test whatsoever in front of start_hash_task (hash tasks execute no command). *)
+Theorem C12_commands_le_njob_of_sound_job_test :
+  forall hg jg, sound_test jg ->
+  forall (n : nat) (evs : list lev),
+    let l := lrun_gen hg jg (loop_init n) evs in command_tasks l <= n /\ overrun l = false.
+Proof. exact commands_le_njob_of_sound_job_test. Qed.
+
 (* ... which the generated tests are. *)
 Theorem C12_slot_tests_sound : sound_test hash_slot_free /\ sound_test job_slot_free.
 Proof. exact (conj hash_slot_free_sound job_slot_free_sound). Qed.
